@@ -31,19 +31,19 @@ theorem EpochProvision_gen (prov : Int) :
     Gen.Mint.EpochProvision prov = (Num.Dec.truncateInt prov).bind Num.newCoin := rfl
 
 /-- B — `Keeper.DistributeMintedCoin` (mirrored by `Mint.afterEpochEnd`: `st`, `pl`, `dv`, `comm`). -/
-theorem ops_Keeper_DistributeMintedCoin_pinned : Gen.Mint.ops_Keeper_DistributeMintedCoin =
-    ["distributeToModule(v1,v0.feeCollectorName,v2,v4.Staking)",
-     "distributeToModule(v1,poolincentivestypes.ModuleName,v2,v4.PoolIncentives)",
-     "distributeDeveloperRewards(v1,v2,v4.DeveloperRewards,v3.WeightedDeveloperRewardsReceivers)",
-     "Sub(v2.Amount,v5)", "Sub(_,v7)", "Sub(_,v8)", "FundCommunityPool(v1,_,_)"] := by decide
+theorem opsx_Keeper_DistributeMintedCoin_pinned : Gen.Mint.opsx_Keeper_DistributeMintedCoin =
+    ["distributeToModule(v0,v1,v0.feeCollectorName,v2,v4.Staking)",
+     "distributeToModule(v0,v1,poolincentivestypes.ModuleName,v2,v4.PoolIncentives)",
+     "distributeDeveloperRewards(v0,v1,v2,v4.DeveloperRewards,v3.WeightedDeveloperRewardsReceivers)",
+     "Sub(v2.Amount,v5)", "Sub(_,v7)", "Sub(_,v8)", "FundCommunityPool(v0.communityPoolKeeper,v1,_,_)"] := by decide
 
 /-- B — `Keeper.distributeDeveloperRewards` (mirrored by `Mint.afterEpochEnd` + `Mint.payReceivers`: the
 vesting-balance guard, burn of the full developer share, per-receiver truncated portions, supply offsets). -/
-theorem ops_Keeper_distributeDeveloperRewards_pinned : Gen.Mint.ops_Keeper_distributeDeveloperRewards =
-    ["getProportions(v2,v3)", "LT(v8.Amount,v5.Amount)", "BurnCoins(v1,types.ModuleName,v9)",
-     "AddSupplyOffset(v1,v2.Denom,v8.Amount)", "==(_,0)", "FundCommunityPool(v1,v9,v7)",
-     "getProportions(v5,v10.Weight)", "==(v10.Address,emptyWeightedAddressReceiver)", "FundCommunityPool(v1,v12,_)",
-     "SendCoinsFromModuleToAccount(v1,types.DeveloperVestingModuleAcctName,v13,v12)", "Neg(v8.Amount)",
-     "AddSupplyOffset(v1,v2.Denom,_)"] := by decide
+theorem opsx_Keeper_distributeDeveloperRewards_pinned : Gen.Mint.opsx_Keeper_distributeDeveloperRewards =
+    ["getProportions(v2,v3)", "LT(v8.Amount,v5.Amount)", "BurnCoins(v0.bankKeeper,v1,types.ModuleName,v9)",
+     "AddSupplyOffset(v0.bankKeeper,v1,v2.Denom,v8.Amount)", "==(_,0)", "FundCommunityPool(v0.communityPoolKeeper,v1,v9,v7)",
+     "getProportions(v5,v10.Weight)", "==(v10.Address,emptyWeightedAddressReceiver)", "FundCommunityPool(v0.communityPoolKeeper,v1,v12,_)",
+     "SendCoinsFromModuleToAccount(v0.bankKeeper,v1,types.DeveloperVestingModuleAcctName,v13,v12)", "Neg(v8.Amount)",
+     "AddSupplyOffset(v0.bankKeeper,v1,v2.Denom,_)"] := by decide
 
 end OsmoVerif.Props.TieGenMint
